@@ -391,6 +391,29 @@ def dict_concrete_unit(p, item, tier, seed):
                     "b=io.BytesIO(); write_binary_dict({}, b); d=b.getvalue(); bad=False\n"
                     "for x in (d+b'\\x00', d+b'abc', d[:-1], d[:3], b''):\n    try:\n        read_binary_dict(io.BytesIO(x)); bad=True\n    except BinaryDictIOError:\n        pass\n"
                     "sys.exit(1 if bad or read_binary_dict(io.BytesIO(d))!={} else 0)\n")
+    # lengths on both sides of every sign / width boundary of the length fields
+    from cirbo.circuits_db import binary_dict_io as BD
+
+    for which, nbytes in (("key", BD.DICT_KEY_BYTE_SIZE), ("value", BD.DICT_VALUE_BYTE_SIZE)):
+        top = (1 << (8 * nbytes)) - 1
+        for ln in sorted({0, 1, 127, 128, 255, 256, 32767, 32768, 40000, 65535, 65536, top} & set(range(0, min(top, 70000) + 1))):
+            k, v = ("k" * ln, b"v") if which == "key" else ("k", b"\x01" * ln)
+            d = {k: v, "other": b"x"}
+            p.case(("dict-len", which, ln), sample=f"dictionary with a {which} of {ln} bytes" if ln in (32768, 65535) else None)
+            buf = io.BytesIO()
+            bad = None
+            try:
+                write_binary_dict(d, buf)
+                if read_binary_dict(io.BytesIO(buf.getvalue())) != d:
+                    bad = "round trip differs"
+            except Exception as e:  # noqa: BLE001
+                bad = f"{type(e).__name__}: {e}"
+            if bad:
+                p.violation(f"dictio:concrete:{which}-of-{ln}-bytes", f"{which} of {ln} bytes (limit {top}): {bad}",
+                            "import io\nfrom cirbo.circuits_db.binary_dict_io import read_binary_dict, write_binary_dict\n"
+                            f"k, v = {('\'k\' * ' + str(ln) + ', b\'v\'') if which == 'key' else ('\'k\', b\'\\x01\' * ' + str(ln))}\nd={{k: v, 'other': b'x'}}\nb=io.BytesIO()\n"
+                            "try:\n    write_binary_dict(d,b); ok = read_binary_dict(io.BytesIO(b.getvalue()))==d\nexcept Exception as e:\n    print(type(e).__name__, e); ok=False\nsys.exit(0 if ok else 1)\n")
+                return
     alphabet = ["a", "\x00", "é", "€", "\U0001F600"]
     keys = [""] + ["".join(t) for n in (1, 2) for t in itertools.product(alphabet, repeat=n)]
     vals = [b"", b"\x00", b"ab\xff"]
